@@ -88,7 +88,7 @@ Query(op, mm) ==
 
 Reject(k) ==
     /\ "reject" \in Ops /\ k \in RejectKinds
-    /\ (k \in {"predict_unfitted", "predict_exp_unfitted"} => ~fitted)
+    /\ (k \in {"predict_unfitted", "predict_exp_unfitted", "first_pfit_too_few_rows"} => ~fitted)
     /\ (k \in {"pfit_wrong_columns", "pfit_row_length"} => fitted)
     /\ last' = [op |-> "reject", kind |-> k]
     /\ UNCHANGED modelVars
